@@ -220,6 +220,10 @@ func hasLoop(fn *ssa.Function) bool {
 func (fr *Frame) inlineCall(st *State, fn *ssa.Function, bindings []*Val, args []*Val, pos token.Pos) []*Val {
 	x := fr.x
 	nf := x.newFrame(fn, fr)
+	if x.ranFns == nil {
+		x.ranFns = map[*ssa.Function]bool{}
+	}
+	x.ranFns[fn] = true
 	for i, fv := range fn.FreeVars {
 		if i < len(bindings) {
 			nf.freeVars[fv] = bindings[i]
